@@ -8,7 +8,7 @@ def run(tier, seed):
     ck = Check("C11", tier, seed)
     ck.trusted += ["coq/Wasm/Sem.v multi-instance store; harness/c11 (N instances, two runtimes sharing a compilation cache), checks/c11.py"]
     ck.assumptions += ["per-instance WASI state (descriptors, stdio) is covered by C16/C18 models, not by this run",
-                       "data.drop/elem.drop are not generated (bulk-memory instructions are outside the generator)"]
+                       "bulk-memory, reference-type, table and SIMD instructions are outside W: they are covered by the type-coverage stream (interleaved vs lone, oracle only)"]
     proofs_ok = ck.proofs()
     n = 100 if tier == "quick" else 3000
     binp, log = build_harness("c11")
@@ -65,6 +65,24 @@ def run(tier, seed):
             if code == -3:
                 dist["model_out_of_fuel"] += 1; continue
             viol("engine-vs-spec", {"kind": "engine-vs-spec", "engine": eng}, {"code": code, "case": cases[idx[k]]})
+    # ---- type-coverage stream (oracle only: these programs are outside W): modules of harness/c03's second generator
+    # (tables with table.set/grow/fill/copy/init, ref.func at run time, passive segments and their drops, bulk memory,
+    # SIMD), three anonymous instances over two runtimes sharing a cache, interleaved vs lone
+    b3, log3 = build_harness("c03")
+    if not b3:
+        viol("harness-build", {"kind": "build", "harness": "c03"}, {"log": log3[-2000:]}, no_input=True)
+    else:
+        n2 = 40 if tier == "quick" else 1500
+        rc3, out3 = sh([b3, "-mode", "iso", "-seed", str(seed + 500), "-nvalid2", str(n2)], timeout=2400)
+        iso = [json.loads(l) for l in out3.split("\n") if l.startswith('{"ev":"iso"')]
+        tcs = {"modules": n2, "runs": len(iso), "calls": sum(x.get("calls", 0) for x in iso), "skipped": sum(1 for x in iso if x.get("skip"))}
+        dist["type_coverage_stream"] = tcs
+        ck.cases += len(iso)
+        if rc3 != 0:
+            viol("harness-crash", {"kind": "crash", "stream": "type-coverage"}, {"rc": rc3, "tail": out3[-2000:]})
+        for x in iso:
+            if x.get("diff"):
+                viol("instance-observes-other", {"kind": "instance-observes-other", "engine": x.get("engine"), "stream": "type-coverage"}, x)
     if not proofs_ok and not ck.violations:
         ck.violation("proof-broken", {"kind": "proof-broken"}, getattr(ck, "proof_failure", {}), no_input=True)
     return ck.finish()
